@@ -13,6 +13,7 @@ import (
 	"bytes"
 	"encoding/hex"
 	"fmt"
+	"io"
 	"math/big"
 	"os"
 	"strings"
@@ -281,8 +282,55 @@ func c06OutFileProbe(g *Gen) {
 	}
 }
 
+// c06WriteErrors: gen.Generate into a writer that fails after k bytes must report an error for every
+// builtin template (an empty or cut-off listing must never be passed off as complete).
+func c06WriteErrors(g *Gen) {
+	text := "a = 2*1\nb = a + 1\nc = b << 3\nd = c + b\nreturn d << 4 + a\n"
+	for _, name := range verifhooks.GenBuiltinTemplateNames() {
+		render := func(w io.Writer) (err error, pn string) {
+			pn = safe(func() {
+				ch, e := parse.String(text)
+				if e != nil {
+					err = e
+					return
+				}
+				d, e := verifhooks.GenPrepareData(verifhooks.GenConfig{Allocator: c06Alloc}, ch)
+				if e != nil {
+					err = e
+					return
+				}
+				tmpl, e := verifhooks.GenBuiltinTemplate(name)
+				if e != nil {
+					err = e
+					return
+				}
+				err = verifhooks.GenGenerate(w, tmpl, d)
+			})
+			return
+		}
+		var buf bytes.Buffer
+		if err, pn := render(&buf); err != nil || pn != "" || buf.Len() == 0 {
+			continue
+		}
+		n := buf.Len()
+		for _, k := range []int{0, 1, n / 3, n / 2, n - 10, n - 1} {
+			if k < 0 || k >= n {
+				continue
+			}
+			w := &failAfter{n: k}
+			err, pn := render(w)
+			g.Count("write-error")
+			if pn != "" || err == nil {
+				g.Notes = append(g.Notes, fmt.Sprintf("VIOLATION: gen.Generate (%s) reports %v / panic %q although the writer failed after %d of %d bytes", name, err, pn, k, n))
+				return
+			}
+		}
+	}
+}
+
 func genC06(g *Gen) {
 	c06OutFileProbe(g)
+	c06WriteErrors(g)
 	// fixed cases: the documented shapes and the known delicate ones
 	for _, text := range []string{
 		"return 1",
